@@ -25,6 +25,7 @@ pub fn dispatch(op: &str, case: &Value) -> Value {
         "openapi" => op_openapi(case),
         "echo" => op_echo(case),
         "request_id_relay" => op_request_id_relay(case),
+        "j2oas" => op_j2oas(case),
         _ => json!({"error": format!("unknown op {}", op)}),
     }
 }
@@ -1100,4 +1101,56 @@ fn op_request_id_relay(_case: &Value) -> Value {
     uniq.sort(); uniq.dedup();
     if uniq.len() != ids.len() { problems.push("request ids repeat".to_string()); }
     json!({"as_specified": problems.is_empty(), "problems": problems, "requests": ids.len()})
+}
+
+// ---------------------------------------------------------------------------------- C08
+static DYN_SCHEMA: std::sync::Mutex<Option<schemars::schema::Schema>> = std::sync::Mutex::new(None);
+
+#[derive(Serialize)]
+struct DynTy;
+impl JsonSchema for DynTy {
+    fn schema_name() -> String { "DynTy".to_string() }
+    fn is_referenceable() -> bool { false }
+    fn json_schema(_: &mut schemars::gen::SchemaGenerator) -> schemars::schema::Schema {
+        DYN_SCHEMA.lock().unwrap().clone().expect("schema set")
+    }
+}
+#[endpoint { method = GET, path = "/dyn" }]
+async fn dyn_endpoint(_r: RequestContext<()>) -> Result<HttpResponseOk<DynTy>, HttpError> { Ok(HttpResponseOk(DynTy)) }
+
+/// {"op":"j2oas","schema":{JSON Schema keywords},"null_default":bool} -> published OpenAPI schema + keyword comparison
+fn op_j2oas(case: &Value) -> Value {
+    let input = case["schema"].clone();
+    let mut obj: schemars::schema::SchemaObject = match serde_json::from_value(input.clone()) {
+        Ok(o) => o,
+        Err(e) => return json!({"error": format!("schema: {}", e)}),
+    };
+    if case["null_default"].as_bool().unwrap_or(false) {
+        obj.metadata().default = Some(Value::Null);
+    }
+    *DYN_SCHEMA.lock().unwrap() = Some(schemars::schema::Schema::Object(obj));
+    let r = crate::quiet(|| {
+        let mut api = ApiDescription::<()>::new();
+        api.register(dyn_endpoint).unwrap();
+        api.openapi("t", semver::Version::new(1, 0, 0)).json().unwrap()
+    });
+    let doc = match r { Ok(d) => d, Err(p) => return json!({"panic": p}) };
+    let out = doc["paths"]["/dyn"]["get"]["responses"]["200"]["content"]["application/json"]["schema"].clone();
+    let num = |v: &Value| v.as_f64();
+    let mut equivalent = out["type"] == input["type"];
+    // OpenAPI 3.0: exclusiveMinimum / exclusiveMaximum are booleans next to minimum / maximum
+    for (lo, xlo, olo, oxlo) in [("minimum", "exclusiveMinimum", "minimum", "exclusiveMinimum"), ("maximum", "exclusiveMaximum", "maximum", "exclusiveMaximum")] {
+        let (want, excl) = if !input[xlo].is_null() { (num(&input[xlo]), true) } else { (num(&input[lo]), false) };
+        equivalent = equivalent && num(&out[olo]) == want && out[oxlo].as_bool().unwrap_or(false) == excl;
+    }
+    equivalent = equivalent && num(&out["multipleOf"]) == num(&input["multipleOf"]) && out["format"] == input["format"];
+    let mut annotations_kept = true;
+    for k in ["description", "deprecated", "x-rust-type", "example"] {
+        if !input[k].is_null() && out[k] != input[k] { annotations_kept = false; }
+    }
+    if input["nullable"].as_bool() == Some(true) && out["nullable"] != true { annotations_kept = false; }
+    if case["null_default"].as_bool().unwrap_or(false) {
+        if !out.as_object().map(|o| o.contains_key("default")).unwrap_or(false) || !out["default"].is_null() { annotations_kept = false; }
+    } else if !input["default"].is_null() && out["default"] != input["default"] { annotations_kept = false; }
+    json!({"openapi": out, "equivalent": equivalent, "annotations_kept": annotations_kept})
 }
